@@ -365,3 +365,103 @@ class Grammar:
         for name in self.order:
             scan(name, self.G[name]['e'])
         return list(dict.fromkeys(positions)), list(dict.fromkeys(findings))
+
+    # -- canonical form of the whole grammar (reviewed-grammar rule)
+    def first_set(self, e, seen=()):
+        """(set of possible first characters, nullable) of an expression; (None, _) when not computable."""
+        k = e['k']
+        if k == 'str':
+            return ({e['v'][0]}, False) if e['v'] else (set(), True)
+        if k == 'range':
+            return (set(chr(c) for c in range(ord(e['a']), ord(e['b']) + 1)), False)
+        if k == 'ident':
+            if e['v'] in BUILTIN:
+                return (set(BUILTIN[e['v']]), False)
+            if e['v'] in ('SOI', 'EOI'):
+                return (set(), True)
+            if e['v'] in self.G and e['v'] not in seen:
+                return self.first_set(self.G[e['v']]['e'], seen + (e['v'],))
+            return (None, False)
+        if k == 'seq':
+            fa, na = self.first_set(e['a'], seen)
+            if fa is None:
+                return (None, False)
+            if not na:
+                return (fa, False)
+            fb, nb = self.first_set(e['b'], seen)
+            if fb is None:
+                return (None, False)
+            return (fa | fb, nb)
+        if k == 'choice':
+            fa, na = self.first_set(e['a'], seen)
+            fb, nb = self.first_set(e['b'], seen)
+            if fa is None or fb is None:
+                return (None, False)
+            return (fa | fb, na or nb)
+        if k in ('opt', 'rep'):
+            f, n = self.first_set(e['e'], seen)
+            return (f, True)
+        if k == 'rep1':
+            return self.first_set(e['e'], seen)
+        if k in ('neg', 'pos'):
+            return (set(), True)
+        return (None, False)
+
+    def canonical(self):
+        """{rule: canonical text}: silent rules inlined at their uses, choices and sequences flattened, alternatives of a
+        choice sorted when their first-character sets are pairwise disjoint and none can match the empty string (PEG order
+        is then irrelevant).  Two grammars with equal canonical forms produce the same parse trees."""
+        silent = {n for n, r in self.G.items() if r['ty'] == 'silent' and n not in ('WHITESPACE', 'COMMENT')}
+
+        def txt(e, seen):
+            k = e['k']
+            if k == 'str':
+                return json_str(e['v'])
+            if k == 'insens':
+                return '^' + json_str(e['v'])
+            if k == 'range':
+                return "'%s'..'%s'" % (e['a'], e['b'])
+            if k == 'ident':
+                if e['v'] in silent and e['v'] not in seen:
+                    return '(' + txt(self.G[e['v']]['e'], seen | {e['v']}) + ')'
+                return e['v']
+            if k == 'seq':
+                return ' ~ '.join(par(x, seen, 'seq') for x in self.flatten_seq(e))
+            if k == 'choice':
+                alts = self.flatten_choice(e)
+                # inline silent alternatives that are themselves choices
+                flat = []
+                for a in alts:
+                    if a['k'] == 'ident' and a['v'] in silent and a['v'] not in seen and self.G[a['v']]['e']['k'] == 'choice':
+                        flat += self.flatten_choice(self.G[a['v']]['e'])
+                    else:
+                        flat.append(a)
+                parts = [par(x, seen, 'choice') for x in flat]
+                fs = [self.first_set(x) for x in flat]
+                disjoint = all(f is not None and f and not n for f, n in fs)
+                if disjoint:
+                    for i in range(len(fs)):
+                        for j in range(i + 1, len(fs)):
+                            if fs[i][0] & fs[j][0]:
+                                disjoint = False
+                if disjoint:
+                    parts = sorted(parts)
+                return ' | '.join(parts)
+            if k in ('opt', 'rep', 'rep1', 'neg', 'pos'):
+                sym = {'opt': '?', 'rep': '*', 'rep1': '+'}.get(k)
+                inner = par(e['e'], seen, 'unary')
+                return inner + sym if sym else ('!' if k == 'neg' else '&') + inner
+            return '<%s>' % k
+
+        def par(e, seen, ctx):
+            t = txt(e, seen)
+            if (e['k'] == 'choice') or (e['k'] == 'seq' and ctx in ('unary',)):
+                return '(' + t + ')'
+            return t
+
+        return {n: '%s: %s' % (r['ty'], txt(r['e'], frozenset([n]))) for n, r in self.G.items() if n not in silent}
+
+
+def json_str(v):
+    import json as _j
+    return _j.dumps(v, ensure_ascii=False)
